@@ -24,6 +24,16 @@ func (c *Ctx) worklistLoops(u *FuncUnit) []*ast.ForStmt {
 		}
 		pops, pushes := 0, 0
 		ast.Inspect(f.Body, func(x ast.Node) bool {
+			if es, ok := x.(*ast.ExprStmt); ok {
+				if _, _, isPush := c.m.pushCall(es); isPush {
+					pushes++
+				}
+			}
+			if call, ok := x.(*ast.CallExpr); ok {
+				if _, isPop := c.m.popCall(call); isPop {
+					pops++
+				}
+			}
 			if as, ok := x.(*ast.AssignStmt); ok && len(as.Lhs) == 1 && len(as.Rhs) == 1 {
 				if se, ok := ast.Unparen(as.Rhs[0]).(*ast.SliceExpr); ok && identVar(info, se.X) != nil && identVar(info, se.X) == identVar(info, as.Lhs[0]) {
 					pops++
